@@ -498,7 +498,13 @@ func runPortmap(t *testing.T, scAny any, trace bool) *Outcome {
 							got[pmKey{e.Prog, e.Vers, p}] = hi*256 + lo
 						}
 					}
-					if !sameMap(got, model) {
+					exotic := false
+					for k := range model {
+						if k.prot != 6 && k.prot != 17 {
+							exotic = true // rpcbind's netid strings cannot name such a protocol: only the v2 DUMP is compared then
+						}
+					}
+					if !sameMap(got, model) && !(exotic && op.Vers >= 3) {
 						o.Vio("C27.dump-wrong", fmt.Sprintf("vers=%d", op.Vers), "%s: DUMP lists %d mappings %v, registry model has %d %v", name, len(got), pmKeys(got), len(model), pmKeys(model))
 					}
 				}
@@ -618,6 +624,18 @@ func genC27(r *simrt.Rand, tier string) any {
 			PVers: uint32(1 + r.Int(4)), Prot: []uint32{6, 17}[r.Int(2)], Port: uint32(1 + r.Int(65535)), Netid: []string{"tcp", "udp", "tcp6", "udp6"}[r.Int(4)]}
 		if r.Pct(4) {
 			op.Vers = []uint32{1, 5, 0}[r.Int(3)]
+		}
+		if r.Pct(8) {
+			// triples that differ from a plausible registration only in high bits (a key packed into too few
+			// bits would take them for that registration)
+			switch r.Int(3) {
+			case 0:
+				op.PVers |= uint32(1+r.Int(255)) << 24
+			case 1:
+				op.Prot += 256 * uint32(1+r.Int(1000))
+			case 2:
+				op.Prog, op.PVers = op.Prog-1, op.PVers|1<<24
+			}
 		}
 		if r.Pct(3) {
 			op.Proc = 5 + uint32(r.Int(3))
@@ -1298,7 +1316,7 @@ func (zeroReader) Read(p []byte) (int, error) {
 
 func init() {
 	Register(&Prop{ID: "C27", Level: "exploration",
-		Rule: "one case = 5-30 portmap v2 / rpcbind v3,v4 calls (NULL, SET, UNSET, GETPORT/GETADDR, DUMP, unknown versions, unknown procedures, foreign program numbers) from 8 client addresses (IPv4/IPv6 loopback, IPv4-mapped, private and global addresses) over the simulated network against a Portmapper started through its listen seam, transport segmentation on alternate connections, sequential or (30%) under the random scheduler, or (20% of cases) concurrently: one loopback client issues 4-11 SET/UNSET calls while 1-3 other clients issue DUMP (v2, v3, v4) and GETPORT/GETADDR calls under the seeded scheduler - every DUMP reply must then be a set of mappings the registry held at some instant between the call and its reply (in 30% of the concurrent cases two loopback clients SET/UNSET at the same time instead, and the registry afterwards must be what some interleaving of the two streams leaves behind); oracle: every reply strictly decodes (RFC 1831 + RFC 1833 result types), GETPORT/GETADDR/DUMP equal a map model of (prog,vers,prot)->port, SET/UNSET from loopback update it, and the registry (read through GetMappings before and after every call) never changes for a non-loopback client in any protocol version; non-trivial = at least one call; distinct by event digest",
+		Rule: "one case = 5-30 portmap v2 / rpcbind v3,v4 calls (NULL, SET, UNSET, GETPORT/GETADDR, DUMP, unknown versions, unknown procedures, foreign program numbers, versions and protocol numbers that differ from registered ones only in their high bits) from 8 client addresses (IPv4/IPv6 loopback, IPv4-mapped, private and global addresses) over the simulated network against a Portmapper started through its listen seam, transport segmentation on alternate connections, sequential or (30%) under the random scheduler, or (20% of cases) concurrently: one loopback client issues 4-11 SET/UNSET calls while 1-3 other clients issue DUMP (v2, v3, v4) and GETPORT/GETADDR calls under the seeded scheduler - every DUMP reply must then be a set of mappings the registry held at some instant between the call and its reply (in 30% of the concurrent cases two loopback clients SET/UNSET at the same time instead, and the registry afterwards must be what some interleaving of the two streams leaves behind); oracle: every reply strictly decodes (RFC 1831 + RFC 1833 result types), GETPORT/GETADDR/DUMP equal a map model of (prog,vers,prot)->port, SET/UNSET from loopback update it, and the registry (read through GetMappings before and after every call) never changes for a non-loopback client in any protocol version; non-trivial = at least one call; distinct by event digest",
 		Gen:  genC27, New: func() any { return &PmScn{} }, Run: runPortmap, Shrink: shrinkPm,
 		Real:    []string{"Portmapper (StartOnPort, accept loop, connection handler, handleCall, all v2/v3/v4 procedures, Stop)", "record marking"},
 		Stubbed: []string{"kernel TCP (simnet)", "clock", "scheduler", "sync primitives"}})
